@@ -593,3 +593,18 @@ type namedVar interface {
 
 // NOTE: used for creating godoc links for constant.Foo identifiers.
 var _ = constant.Constant(nil)
+
+// calleeAddrSpace returns the address space to print for a call, invoke or
+// callbr: the AddrSpace field of the instruction if present, otherwise the
+// address space of the callee's pointer type (a call through a pointer in a
+// non-zero address space is written `call addrspace(N) ...` in LLVM assembly;
+// the constructors leave the field zero).
+func calleeAddrSpace(addrSpace types.AddrSpace, callee value.Value) types.AddrSpace {
+	if addrSpace != 0 || callee == nil {
+		return addrSpace
+	}
+	if typ, ok := callee.Type().(*types.PointerType); ok {
+		return typ.AddrSpace
+	}
+	return addrSpace
+}
